@@ -39,6 +39,9 @@ type Scenario struct {
 	// DeadlockClause is the property clause a deadlock is reported under.
 	DeadlockClause string
 	PanicClause    string
+	// PanicSig, if set, derives the witness part of a panic clause from the panic
+	// text (message + trimmed stack); default: the first line of the message.
+	PanicSig        func(p string) string
 	Quick, Thorough Bounds
 	// NonTrivial tells whether an execution exercised what the scenario is about
 	// (vacuity guard). nil = every execution with >1 thread counts.
@@ -120,7 +123,11 @@ func RunOnce(sc *Scenario, prefix []PrefixEnt) *Exec {
 			if cl == "" {
 				cl = "panic"
 			}
-			x.Violations = append(x.Violations, Violation{Clause: cl + ":" + panicSig(p), Detail: p})
+			sig := panicSig(p)
+			if sc.PanicSig != nil {
+				sig = sc.PanicSig(p)
+			}
+			x.Violations = append(x.Violations, Violation{Clause: cl + ":" + sig, Detail: p})
 		}
 		if x.Deadlock != "" && !sc.DeadlockOK {
 			cl := sc.DeadlockClause
